@@ -88,6 +88,22 @@ harness!(c20_only_bom_2, check_only_bom, 2);
 harness!(c20_only_bom_8, check_only_bom, 8);
 harness!(c20_new_unknown_3, check_new_unknown, 3);
 
+// thorough tier: larger texts (still BOUNDED)
+macro_rules! harness_t {
+  ($name:ident, $f:ident, $n:expr) => {
+    #[kani::proof]
+    #[kani::unwind(26)]
+    fn $name() {
+      $f::<$n>();
+    }
+  };
+}
+harness_t!(t20_unchanged_16, check_unchanged, 16);
+harness_t!(t20_unchanged_21, check_unchanged, 21);
+harness_t!(t20_only_bom_13, check_only_bom, 13);
+harness_t!(t20_only_bom_20, check_only_bom, 20);
+harness_t!(t20_changed_16, check_changed, 16);
+
 // ---- charset detection of the pinned dependency (deno_media_type::encoding::detect_charset_local_file):
 // "a byte-order mark, or UTF-8 by default".  BOUNDED by the input length N (the function only reads the
 // first two bytes and the length).
